@@ -117,8 +117,9 @@ def _rand_bucket(rng: random.Random):
     n = rng.choice([0, 1, 2, 3, 5, 10, 30, 80, 150, 300]) if rng.random() < 0.8 else rng.randint(0, 300)
     mode = rng.choice(MODE_NAMES)
     policy = rng.choice(["DEFAULT", "ALLOW_UNKNOWN", "ALLOW_ANY"])
-    thr = {"center": rng.choice([0.5, 1.0, 2.0]), "plane": rng.choice([1.0, 2.0, 3.0]), "iou2d": rng.choice([0.1, 0.3, 0.5, 0.7]),
-           "iou3d": rng.choice([0.1, 0.3, 0.5])}[mode]
+    # (a threshold of exactly 0 is legal: no distance beats it, any overlap does)
+    thr = {"center": rng.choice([0.5, 1.0, 2.0, 0.0]), "plane": rng.choice([1.0, 2.0, 3.0, 0.0]), "iou2d": rng.choice([0.1, 0.3, 0.5, 0.7, 0.0]),
+           "iou3d": rng.choice([0.1, 0.3, 0.5, 0.0])}[mode]
     confs = rng.sample(range(1, 100000), n)
     results = []
     ngt_car = 0
